@@ -3,6 +3,7 @@ use crate::engine::PropDef;
 pub mod c03;
 pub mod c04;
 pub mod c05;
+pub mod c06;
 pub mod c07;
 pub mod c13;
 pub mod c14;
@@ -13,7 +14,7 @@ pub mod c18;
 pub mod c19;
 
 pub fn all() -> Vec<PropDef> {
-    vec![c03::def(), c04::def(), c05::def(), c07::def(), c13::def(), c14::def(), c15::def(), c16::def(), c17::def(), c18::def(), c19::def()]
+    vec![c03::def(), c04::def(), c05::def(), c06::def(), c07::def(), c13::def(), c14::def(), c15::def(), c16::def(), c17::def(), c18::def(), c19::def()]
 }
 
 pub fn by_id(id: &str) -> Option<PropDef> {
